@@ -172,12 +172,20 @@ func init() {
 				continue
 			}
 			ref := resultsOf(zlint.LintCertificate(c))
+			der := o.der
 			nrep := reps
 			if strings.HasPrefix(o.name, "generated-") || strings.Contains(o.name, "ku-eku") && len(o.der)%3 == 0 {
 				nrep = 12 // the objects aimed at map-iteration order get the full count in every tier
 			}
 			for r := 1; r < nrep; r++ {
-				got := resultsOf(zlint.LintCertificate(c))
+				// alternately the same parsed object and a freshly parsed one (another allocation of the same content)
+				cur := c
+				if r%2 == 1 {
+					if fc, err := x509.ParseCertificate(der); err == nil {
+						cur = fc
+					}
+				}
+				got := resultsOf(zlint.LintCertificate(cur))
 				repRuns++
 				for n, v := range ref {
 					if got[n] != v && !unstable[n+"|"+o.name] {
@@ -196,7 +204,13 @@ func init() {
 			ref := resultsOf(zlint.LintRevocationList(cc.CRL))
 			for r := 1; r < reps; r++ {
 				repRuns++
-				for n, v := range resultsOf(zlint.LintRevocationList(cc.CRL)) {
+				cur := cc.CRL
+				if r%2 == 1 {
+					if fc, err := x509.ParseRevocationList(cc.DER); err == nil {
+						cur = fc
+					}
+				}
+				for n, v := range resultsOf(zlint.LintRevocationList(cur)) {
 					if ref[n] != v {
 						out.Violate("C05|nondeterministic-crl:"+n, fmt.Sprintf("CRL lint %s is not reproducible on %s", n, cc.File), cc.File, ref[n], v)
 					}
@@ -373,7 +387,7 @@ func init() {
 				out.Violate("C05|object-mutated:"+field, "linting changed field "+field+" of the parsed certificate "+o.name, map[string]interface{}{"object": o.name, "der": hexs(o.der)}, nil, nil)
 			}
 		}
-		for _, cc := range corpus.CRLs {
+		for _, cc := range append(append([]CorpusCRL{}, corpus.CRLs...), crlZoo()...) {
 			c1, e1 := x509.ParseRevocationList(cc.DER)
 			c2, e2 := x509.ParseRevocationList(cc.DER)
 			if e1 != nil || e2 != nil {
